@@ -111,7 +111,8 @@ func runDelete(r *rt.Run, env *rt.Env, t *rt.Trace) error {
 			for {
 				c, ok := cardinality(env, id, node)
 				if !ok {
-					st, _ := env.TM.ExecutionStats(id); rt.Fatalf("c06: no working_cardinality for node %s of %s: %v", node, id, st.NodeStats)
+					st, _ := env.TM.ExecutionStats(id)
+					rt.Fatalf("c06: no working_cardinality for node %s of %s: %v", node, id, st.NodeStats)
 				}
 				if c > 0 {
 					seen = true
